@@ -15,10 +15,12 @@ RULE = ('histories over 2-3 shared leaves: build ops (re-using any earlier resul
 EXHAUSTIVE = {'quick': False, 'thorough': False}
 ASSUMPTIONS = ['float64 programs']
 TRUSTED_BASE = ['harness/tprog.py, harness/gen_dag.py']
+tprog.RESET_ROUTES = True
 ALLOW = ['add', 'mul', 'neg', 'sum', 'clone', 'self2', 'reshape', 'slice', 'unbind', 'stack', 'pow', 'mean']
 
 
-def gen_history(rng, tier):
+def gen_history(rng, tier, focus=False):
+    """focus: histories dense in resets and in non-finite upstream gradients (an overflowed micro-batch followed by a reset)"""
     P = gen_dag.Prog()
     shapes = [(3,), (2,), (2, 2), ()]
     for _ in range(rng.randint(2, 3)):
@@ -36,12 +38,19 @@ def gen_history(rng, tier):
             gen_dag.gen_op(rng, P, ALLOW)
             if len(P.nodes) > before:
                 evs.append(('op', len(P.nodes) - 1))
-        elif r < 0.75:
+        elif r < (0.65 if focus else 0.75):
             t = rng.randrange(nt)
-            evs.append(('bw', t, gen_dag.rand_data(rng, P.tshape[t], -2, 2))); nbw += 1
-        elif r < 0.83:
+            if rng.chance(.12):     # a call rejected after its traversal: the upstream gradient has the wrong shape
+                bad = tuple(P.tshape[t]) + (2,)
+                evs.append(('bw', t, gen_dag.rand_data(rng, bad, -2, 2), bad))
+            else:
+                g = gen_dag.rand_data(rng, P.tshape[t], -2, 2)
+                if rng.chance(.5 if focus else .2):      # an overflowed / undefined entry in the upstream gradient: a reset must still clear it
+                    g[rng.randrange(len(g))] = rng.pick([float('inf'), float('-inf'), float('nan')])
+                evs.append(('bw', t, g)); nbw += 1
+        elif r < (0.68 if focus else 0.83):
             evs.append(('retain', rng.randrange(nt)))
-        elif r < 0.93:
+        elif r < (0.97 if focus else 0.93):
             leaves = [n['outs'][0] for n in P.nodes if n['kind'] == 'leaf']
             evs.append(('zero', rng.pick(leaves)))
         else:
@@ -62,7 +71,7 @@ def to_lines(P, evs):
             out.append(' '.join(['t op', nd['name'], show_ints(nd['ins'])] + [str(a) for a in nd['args']]))
             created += len(nd['outs'])
         elif e[0] == 'bw':
-            out.append(f"t bw {e[1]} {show_ints(P.tshape[e[1]])} {show_floats(e[2])}")
+            out.append(f"t bw {e[1]} {show_ints(e[3] if len(e) > 3 else P.tshape[e[1]])} {show_floats(e[2])}")
         elif e[0] == 'retain':
             out.append(f't retain {e[1]}')
         elif e[0] == 'zero':
@@ -78,6 +87,9 @@ def cases(rng, tier):
     for _ in range(100 if tier == 'quick' else 3000):
         P, evs, nbw = gen_history(rng, tier)
         out.append(mk(P, evs, nbw))
+    for _ in range(30 if tier == 'quick' else 600):
+        P, evs, nbw = gen_history(rng, tier, focus=True)
+        out.append(mk(P, evs, nbw))
     for P, evs in corpus():
         out.append(mk(P, evs, 2))
     if tier == 'thorough':
@@ -90,7 +102,8 @@ def cases(rng, tier):
             a = P.add_op('mul', [x, w], [], [(2,)])[0]; b = P.add_op('add', [a, x], [], [(2,)])[0]; c_ = P.add_op('mul', [a, b], [], [(2,)])[0]
             return P, x, w, a, b, c_
         P0, x, w, a, b, c_ = graph()
-        alphabet = [('bw', a, [1.0, 2.0]), ('bw', b, [-1.0, 0.5]), ('bw', c_, [2.0, 1.0]), ('bw', x, [1.0, 1.0]), ('retain', a), ('retain', b), ('zero', x), ('ctx', None)]
+        alphabet = [('bw', a, [1.0, 2.0]), ('bw', b, [-1.0, 0.5]), ('bw', c_, [2.0, 1.0]), ('bw', x, [1.0, 1.0]), ('retain', a), ('retain', b), ('zero', x), ('ctx', None),
+                    ('bw', c_, [1.0, 2.0, 3.0, 4.0], (2, 2))]       # the last one is rejected after its traversal (wrong gradient shape)
         for n in range(1, 5):
             for word in itertools.product(range(len(alphabet)), repeat=n):
                 if not any(alphabet[k][0] == 'bw' for k in word): continue
@@ -144,7 +157,7 @@ def distribution(cases):
     d = {}
     for c in cases:
         if c.get('exhaustive'):
-            k = 'exhaustive: all histories of length <= 4 over 8 events on the diamond graph'
+            k = 'exhaustive: all histories of length <= 4 over 9 events on the diamond graph'
             d[k] = d.get(k, 0) + 1
         for e in c['evs']:
             d[e[0]] = d.get(e[0], 0) + 1
@@ -190,6 +203,8 @@ def oracle(c):
             built.append(e[1]); created += len(P.nodes[e[1]]['outs'])
         elif e[0] == 'zero':
             expect[e[1]] = np.zeros(P.tshape[e[1]])
+        elif e[0] == 'bw' and len(e) > 3 and line_out != 'rejected':
+            return {'key': {'cls': 'bad-gradient-accepted'}, 'case': _strip(c, ei + 1), 'what': f'backward accepted an upstream gradient of shape {e[3]} for a tensor of shape {P.tshape[e[1]]}'}
         elif e[0] == 'bw' and line_out != 'rejected':
             # nodes needed: all built so far (the isolated run rebuilds the same graph)
             d = _isolated(P, built, e[1], e[2])
@@ -205,7 +220,10 @@ def oracle(c):
             want = expect[l]
             if (got is None) != (want is None) and not (got is not None and want is None and not np.any(got)):
                 return {'key': {'cls': 'presence'}, 'case': _strip(c, ei + 1), 'what': f'after event {ei} {e[:2]} leaf t{l} grad is {got}, expected {want}'}
-            if got is not None and want is not None and np.abs(got - want).max() > 1e-9 * (1 + np.abs(want).max()):
+            if got is not None and want is not None and not np.array_equal(np.isnan(got), np.isnan(want)):
+                return {'key': {'cls': 'sum'}, 'case': _strip(c, ei + 1), 'what': f'after event {ei} {e[:2]} leaf t{l} holds {got.tolist()}, the sum of the per-call gradients since its last reset is {want.tolist()}'}
+            fin = None if got is None or want is None else np.isfinite(got) & np.isfinite(want)
+            if fin is not None and (not np.array_equal(got[~fin & ~np.isnan(got)], want[~fin & ~np.isnan(want)]) or (fin.any() and np.abs(got[fin] - want[fin]).max() > 1e-9 * (1 + np.abs(want[fin]).max()))):
                 return {'key': {'cls': 'sum'}, 'case': _strip(c, ei + 1), 'what': f'after event {ei} {e[:2]} leaf t{l} holds {got.tolist()}, the sum of the per-call gradients since its last reset is {want.tolist()}'}
         pos += 1 + created
     return None
